@@ -13,7 +13,7 @@ import sim
 from suites import day, dayc
 
 
-def sim_lines(o):
+def sim_lines(o, parts=None):
     """driver lines and the expected output line of one recorded simulation (None if nothing was simulated)"""
     recs = sorted([(d["tsc"], d) for d in o["days"]] + [(m["tsc"], m) for m in o["malformed"] if "clock0" in m], key=lambda x: x[0])
     if not recs:
@@ -31,7 +31,8 @@ def sim_lines(o):
     wtoks = [str(n)]
     for t in range(n):
         wtoks += wmap.get(t, zero)
-    lines.append("runc %d %s %s %s" % (n, " ".join(first["clock0"]), " ".join(wtoks), " ".join(first["pre"])))
+    mode = "" if not parts else " K %d %s" % (len(parts), " ".join(str(k) for k in parts))
+    lines.append("runc %d %s %s %s%s" % (n, " ".join(first["clock0"]), " ".join(wtoks), " ".join(first["pre"]), mode))
     # the season list must be the same on every day (it is a constant of the run in the model)
     changed = next((d for _, d in recs if d["clock0"][5:] != first["clock0"][5:]), None)
     if changed is not None:
@@ -88,7 +89,17 @@ def worker(payload):
         res["premise_failures"] = sorted(set(f.split(".")[0] if f.startswith("crop") or f.startswith("fallow") else f for f in failed))
     except Exception:
         pass
-    lines, exp = sim_lines(o)
+    # every third simulation is run by the model as a SEQUENCE OF CALLS run_model(num_steps = k) (run_steps_c) with a random
+    # partition whose last call overshoots; the implementation side was advanced one step per call
+    parts = None
+    if payload.get("index", 0) % 3 == 2 and o["days"]:
+        rng = rng_for("runc-parts", payload.get("index", 0))
+        left = len(o["days"]); parts = []
+        while left > 0:
+            k = rng.choice([1, 1, 2, 3, 7, 30, 100, 365]); parts.append(k); left -= k
+        parts.append(5000)
+        res["runs_by_call_partition"] = 1
+    lines, exp = sim_lines(o, parts)
     if lines is None or exp is None:
         res["skipped"] = 1
         return res
@@ -108,7 +119,7 @@ def run_l3(nsims=None, name="runc", timeout=600, **force):
     if nsims is None:
         nsims = 160 if TIER == "quick" else 800
     cfgs = dayc.matrix_configs(nsims, name, **force)
-    res = sim.pmap(worker, [{"cfg": c} for c in cfgs], timeout=timeout)
+    res = sim.pmap(worker, [{"cfg": c, "index": i} for i, c in enumerate(cfgs)], timeout=timeout)
     tot = collections.Counter(); errs = collections.Counter(); meth = collections.Counter(); herr = []; bad = []; prem = collections.Counter()
     for c, r in zip(cfgs, res):
         if r.get("hang") or r.get("harness_error"):
